@@ -23,8 +23,25 @@ def escape_family():
     return out
 
 
+def geometry_family():
+    """Multi-line tokens (block comments, strings with splices, line comments with splices) that start anywhere on a
+    line, followed by more tokens on the line where they end."""
+    out = []
+    pres = ["", "a", "a ", "\ta", "ab\tc ", "x = 1; ", "\t\t"]
+    bodies = ["x", "x\ny", "\n", "x\n\ty", "x\n\n", "\n*", "a b\nc d\ne"]
+    for pre in pres:
+        for b in bodies:
+            out.append(("geometry:blockcomment", pre + "/*" + b + "*/ b\tc;\nd"))
+            out.append(("geometry:blockcomment-glued", pre + "/*" + b + "*/b"))
+        for b in ["x\\\ny", "\\\n", "x\\\n\\\ny"]:
+            out.append(("geometry:string-splice", pre + '"' + b + '" b\tc;\nd'))
+            out.append(("geometry:linecomment-splice", pre + "//" + b + "\nb\tc"))
+            out.append(("geometry:char-splice", pre + "'" + b[:3] + "' b"))
+    return out
+
+
 def cases(tier, seed):
-    out = escape_family()
+    out = escape_family() + geometry_family()
     cs = carriers.conforming("quick", cap=10 if tier == "quick" else 60)
     from . import diffcommon
     files = [(e["fname"], e["text"]) for e in diffcommon.enriched()] + [(c["fname"], c["text"]) for c in cs]
